@@ -4,6 +4,7 @@ import (
 	"bytes"
 	"fmt"
 	"math/big"
+	"strings"
 	"testing"
 
 	"github.com/gotd/td/crypto/srp"
@@ -230,6 +231,19 @@ func TestC15Invalid(t *testing.T) {
 		}
 		in := srp.Input{Salt1: drawBytes(t, "s1", 8), Salt2: drawBytes(t, "s2", 16), G: g, P: p.Bytes()}
 		s := srp.NewSRP(pbt.NewStream(2))
+		primed := "fresh"
+		if gs := validGs(p); !strings.HasSuffix(name, "/bad-g") || len(gs) == 0 {
+			// (an invalid modulus has no valid generator to be used with first)
+		} else if rapid.Bool().Draw(t, "usedWithValidGFirst") {
+			// the same modulus was used with a valid generator earlier in this
+			// process (every real login does that): the refusal must not depend on
+			// what was checked before
+			ok := srp.Input{Salt1: in.Salt1, Salt2: in.Salt2, G: pick(t, "validG", gs), P: in.P}
+			if _, _, err := s.NewHash([]byte("password"), ok); err != nil {
+				t.Fatalf("NewHash with the valid group %s g=%d: %v", name, ok.G, err)
+			}
+			primed = "after-valid-use-of-p"
+		}
 		ans, err := s.Hash([]byte("password"), ref.SRPPad(big.NewInt(12345)), drawBytes(t, "a", 256), in)
 		if err == nil {
 			t.Fatalf("Hash accepted invalid group %s g=%d (A %d bytes)", name, g, len(ans.A))
@@ -237,7 +251,7 @@ func TestC15Invalid(t *testing.T) {
 		if h, _, err := s.NewHash([]byte("password"), in); err == nil {
 			t.Fatalf("NewHash accepted invalid group %s g=%d (%d bytes)", name, g, len(h))
 		}
-		st.Case(fmt.Sprintf("%s/%d", name, g), true, nil, "cand:"+name, fmt.Sprintf("g=%d", g))
+		st.Case(fmt.Sprintf("%s/%d/%s", name, g, primed), true, nil, "cand:"+name, fmt.Sprintf("g=%d", g), primed)
 	})
 }
 
